@@ -118,8 +118,13 @@ ImplAnchor2(pos, sb) ==
                CASE y = "bottom" -> 2 * sb[2] [] y = "center" -> sb[2] + sb[4] [] y = "top" -> 2 * sb[4]>>
 
 (***************************************************************************)
-(* Acceptance of one observation.  o.in = [g |-> geometry]; o.out.runs is  *)
-(* a sequence, one record per exact time unit:                             *)
+(* Acceptance of one observation.  A case is a HISTORY: o.in.gs is a short *)
+(* sequence of geometries converted one after the other in ONE process     *)
+(* (most histories have length 1; the others are regroupings of one vertex *)
+(* sequence -- same type, same flattened numbers, different nesting), and  *)
+(* o.out.steps[i].runs is what was observed for o.in.gs[i].  Every clause  *)
+(* must hold at every step: nothing may be carried over from an earlier    *)
+(* conversion.  runs is a sequence, one record per exact time unit:        *)
 (*  [bounds: <<s,l,e,h>> ticks, shape: [kind, parts],                      *)
 (*   feat: <<[name, unit, dup: BOOLEAN, v: ticks], ...>> (known terms),    *)
 (*   anchors: <<<<2t, 2f>>, ...>> in the order of Positions,               *)
@@ -132,8 +137,8 @@ Clauses == {"NoRaise", "BoundsExact", "ShapelyKind", "ShapelyCoords", "FeaturesP
             "AnchorExact", "CentroidInside", "SurfaceInside",
             "Drift/Shape", "Drift/Features"}   \* not verdicts: the code still is what Impl transcribes (reported as MODEL-DRIFT)
 Inside(p, b) == LIn(p[1], b[1], b[3]) /\ LIn(p[2], b[2] * HZ, b[4] * HZ)
-Holds(cl, o) ==
-    LET g == o.in.g  b == B(g)  R == o.out.runs IN
+HoldsG(cl, g, R) ==
+    LET b == B(g) IN
     \A u \in DOMAIN R :
       LET r == R[u] IN
       CASE cl = "NoRaise"       -> r.raised = <<>>            \* "for every geometry ... returns": none of the four functions raises
@@ -148,4 +153,6 @@ Holds(cl, o) ==
         [] cl = "Drift/Features" -> [i \in DOMAIN r.feat |-> <<r.feat[i].name, r.feat[i].v>>] = ImplFeat(g, b)
         [] cl = "CentroidInside" -> Inside(r.centroid, b)
         [] cl = "SurfaceInside"  -> Inside(r.surface, b)
+Holds(cl, o) == /\ Len(o.out.steps) = Len(o.in.gs)
+                /\ \A i \in DOMAIN o.in.gs : HoldsG(cl, o.in.gs[i], o.out.steps[i].runs)
 =============================================================================
